@@ -6,7 +6,7 @@
    base and the same stack base with only the new function's captures as locals — so the n-th
    re-entry has the configuration of the first — and each activation stays within the
    per-function bounds the verifier computed. Heap reclamation of dropped binaries is C06's. *)
-From Quiver Require Import vm.Wf vm.WfProofs vm.WfRun vm.WfExamples.
+From Quiver Require Import vm.Wf vm.WfProofs vm.WfRun vm.WfExamples vm.WfSpace.
 
 Theorem C16_tailcall_constant_space : forall P As, check_program P As = true ->
   forall s x r s' fr rest,
@@ -42,3 +42,32 @@ Theorem C16_nonvacuous :
   verify_program (prog [{| f_caps := 0; f_code := [IDuplicate; ITailCall true] |}]) = None.
 Proof. split; [exact verifier_accepts | exact reject_tailcall_not_in_tail_position]. Qed.
 Print Assumptions C16_nonvacuous.
+
+(* global form: in every state a verified program reaches from a spawn, the operand stack and the
+   locals are bounded by (number of frames) x (the verifier's largest per-point height / locals
+   count) — and a tail call never adds a frame, so the only factor that can grow counts pending
+   NON-tail calls: a loop written with tail calls runs in space independent of its iteration count *)
+Theorem C16_run_space_bound : forall P As, check_program P As = true ->
+  forall fn fd caps arg pers xs s,
+  nth_error (p_funcs P) fn = Some fd -> length caps = f_caps fd ->
+  Forall (wfv P) caps -> wfv P arg -> Forall (ext_ok P) xs ->
+  run P (init_state fn caps arg pers) xs = Next s -> frames s <> [] ->
+  length (stack s) <= length (frames s) * Hmax As /\
+  length (locals s) <= length (frames s) * Lmax As.
+Proof. exact run_space_bound. Qed.
+Print Assumptions C16_run_space_bound.
+
+Theorem C16_tailcall_keeps_frame_count : forall P As, check_program P As = true ->
+  forall s x r s',
+  Inv P As s -> top_instr P s = Some (ITailCall r) -> step P s x = Next s' ->
+  length (frames s') = length (frames s).
+Proof. exact tailcall_keeps_frame_count. Qed.
+Print Assumptions C16_tailcall_keeps_frame_count.
+
+Theorem C16_loop_space_nonvacuous :
+  exists As, verify_program good_prog = Some As /\ Hmax As = 2 /\ Lmax As = 2 /\
+  exists s, run good_prog (init_state 2 [] (VInt 5%Z) false)
+                (repeat {| x_value := None; x_bool := false |} 60) = Next s /\
+            length (frames s) = 1 /\ length (stack s) = 1 /\ length (locals s) = 0.
+Proof. exact loop_space_nonvacuous. Qed.
+Print Assumptions C16_loop_space_nonvacuous.
